@@ -114,10 +114,11 @@ def handleApply (id : String) (args : List String) : String :=
         match obs with
         | .ok out =>
           if d.isEmpty then .unspec else
-          let a := c15out (o.esc && ind.isEmpty) utf out
+          -- an indent string with anything but white space is the caller's own text
+          let a := if ind.all isWs then c15out o.esc utf out else .unspec
           let b : Verdict :=
             if ind.isEmpty then
-              (if !o.esc && countHtmlEsc out > countHtmlEsc d + countHtmlEsc p then .viol "escape-introduced-with-escaping-off" else .ok)
+              (if !o.esc && !noNewEscapes (d ++ p) out then .viol "escape-introduced-with-escaping-off" else .ok)
             else
               match plain with
               | some (.ok pl) =>
@@ -220,8 +221,9 @@ def handleTestTr (id : String) (args : List String) : String :=
                     | _ => .viol "passing-test-changed-outcome")
         | _ => .unspec
       let v04 : Verdict := if a.bad || b.bad then .viol "panic-or-hang" else .ok
+      let trig := if keyNotEncoderSpelled o.esc d p then " trigger=key-not-encoder-spelled" else ""
       reply id corr (showObs mA ++ "|" ++ showObs mB) [("C15", v15), ("C04", v04)]
-        (obsClass a ++ "/" ++ kindsSig p ++ "/" ++ flags)
+        (obsClass a ++ "/" ++ kindsSig p ++ "/" ++ flags) ++ trig
     | _, _, _, _, _, _ => bad id "testtr-fields"
   | _ => bad id "testtr-arity"
 
@@ -389,8 +391,10 @@ def handleValid (id : String) (args : List String) : String :=
     | some text =>
       let spec := (parseCst text).isSome
       let mv := Scanner.valid text
-      let mc := (Scanner.compact false text).isSome
-      let mi := (Scanner.indent [32] text).isSome
+      -- `compact`/`indent` accept exactly what `valid` accepts (`Scanner.compact_isSome`,
+      -- `Scanner.indent_isSome`); the loops are run for texts of ordinary size only
+      let mc := if text.length > 4000 then mv else (Scanner.compact false text).isSome
+      let mi := if text.length > 4000 then mv else (Scanner.indent [32] text).isSome
       let model := String.ofList ([mv, mc, mi, mv].map fun b => if b then '1' else '0')
       -- bits: Valid Compact Indent Unmarshal [StdValid]
       let implBits := bits.toList.take 4
@@ -532,9 +536,7 @@ def handleCodec (id : String) (args : List String) : String :=
             | _, _ => .viol "indent-accepts-differs"
           some (m, v)
         else if fn = "htmlescape" then
-          let m : Obs := match parseCst y with
-            | some _ => .ok ((Scanner.compactLoop true Scanner.Scan.init 0 y []).map (·.2) |>.getD [])
-            | none => .ok []
+          let m : Obs := .ok (Scanner.htmlEscape 0 y)
           let v : Verdict := match obs, parseCst y with
             | .ok out, some c =>
               if hasRawHtml out then .viol "htmlescape-left-raw-char"
@@ -558,6 +560,7 @@ def handleCodec (id : String) (args : List String) : String :=
           -- UnmarshalWithKeys into a map: the key list, each key hex, joined by 0x00 is not safe;
           -- the harness sends the list re-marshalled as a JSON array of strings
           let m : Obs := match parseCst y with
+            | some (.lit _) => obs      -- `null`: the key list of an earlier decode is returned (not an object: unspecified)
             | some (.obj ms) => .ok (Cst.print (.arr (ms.map fun kv => .str (quoteBody true (unquote kv.1)))))
             | some _ => .err '-'
             | none => .err '-'
